@@ -1374,13 +1374,13 @@ pub fn run_c08(tier: Tier, budget: Duration, frag: &mut Frag) {
     frag.traces_validated += st.valid_histories;
     frag.exhaustive &= !st.capped;
     frag.samples.extend(samples);
-    let jobs: Vec<(usize, u32)> = if q { vec![(2, u32::MAX), (3, 2)] } else { vec![(2, u32::MAX), (3, u32::MAX), (4, 2)] };
+    let jobs: Vec<(usize, u32)> = if q { vec![(2, u32::MAX), (3, 3)] } else { vec![(2, u32::MAX), (3, 5), (4, 2)] };
     for (ntasks, bound) in jobs {
         let t1 = Instant::now();
         let c = crate::c08::run_concurrent_part(ntasks, bound, t0 + budget, threads(), &mut frag.col);
         frag.parts.push(json!({
             "engine": "E2 schedmc",
-            "what": format!("{} controlled tasks, each: acquire one of 6 guards (shared/exclusive on 3 cells, typed and by-id paths), hold across a scheduling point, release; every multiset of tasks; outcome of every acquisition compared with the borrow model applied in the executed order", ntasks),
+            "what": format!("{} controlled tasks, each: acquire one of 6 guards (shared/exclusive on 3 cells, typed and by-id paths), hold across a scheduling point, release; every multiset of tasks; EVERY borrow / release of every cell is a scheduling point (the engine links atomic_refcell 0.1.14 with a point in front of each operation), so calls are preempted between two cell operations; oracle: the outcomes are linearizable w.r.t. the shared-xor-exclusive model (brute force over all orders of the calls' effects that respect real time)", ntasks),
             "configurations": c.configs, "preemption_bound": if bound == u32::MAX { json!("unbounded") } else { json!(bound) },
             "schedules": c.schedules, "states": c.nodes, "transitions": c.transitions, "acquisitions_that_panicked_on_conflict": c.conflicts_seen, "cap_hit": c.capped, "wall_s": t1.elapsed().as_secs_f64(),
         }));
@@ -1388,7 +1388,7 @@ pub fn run_c08(tier: Tier, budget: Duration, frag: &mut Frag) {
         frag.transitions += c.transitions;
         frag.exhaustive &= !c.capped;
     }
-    frag.assumptions.push("each borrow / release is one atomic RMW inside atomic_refcell (a dependency); operation granularity is therefore the atomicity granularity; memory ordering of the payload is outside this check".into());
+    frag.assumptions.push("each borrow / release is one atomic RMW inside atomic_refcell (its logic is linked unchanged, with a scheduling point in front of every operation); memory ordering of the payload (sequentially consistent execution) is outside this check".into());
 }
 
 // ---------------------------------------------------------------------------
